@@ -53,9 +53,9 @@ Definition cddl_body (e : env) (rec : rule -> item -> bool) (r : rule) (it : ite
   | RMapOf lo k v, IMap true kvs =>
       (lo <=? len kvs) && forallb (fun kv => rec k (fst kv) && rec v (snd kv)) kvs && items_nodup (map fst kvs)
   | RTag t r', ITag u x => (t =? u) && rec r' x
-  | RSet lo r', ITag 258 (IArray true xs) => (lo <=? len xs) && forallb (rec r') xs && items_nodup xs
-  | RSetAny lo r', ITag 258 (IArray d xs) =>
-      (d || negb (is_nil xs)) && (lo <=? len xs) && forallb (rec r') xs && items_nodup xs
+  | RSet lo r', ITag u (IArray true xs) => (u =? 258) && (lo <=? len xs) && forallb (rec r') xs && items_nodup xs
+  | RSetAny lo r', ITag u (IArray d xs) =>
+      (u =? 258) && (d || negb (is_nil xs)) && (lo <=? len xs) && forallb (rec r') xs && items_nodup xs
   | RChoice alts, _ => existsb (fun a => rec a it) alts
   | RCborIn r', IBytes b =>
       match parse_exact b with
@@ -65,7 +65,7 @@ Definition cddl_body (e : env) (rec : rule -> item -> bool) (r : rule) (it : ite
   | RRef id, _ => match lookup e id with Some r' => rec r' it | None => false end
   | RAddress, IBytes b => address_ok b
   | RRewardAccount, IBytes b => reward_account_ok b
-  | RRatio unit, ITag 30 (IArray true [IUint n; IUint d]) => (1 <=? d) && (negb unit || (n <=? d))
+  | RRatio unit, ITag u (IArray true [IUint n; IUint d]) => (u =? 30) && (1 <=? d) && (negb unit || (n <=? d))
   | _, _ => false
   end.
 
